@@ -127,7 +127,10 @@ def d16_of(d):
 
 
 # ------------------------------------------------------------------ labels --------------------
-def build_frame(pose_list, frame_idx, n_nodes, scores=None, vid=None):
+_COUNTED = {}
+
+
+def build_frame(pose_list, frame_idx, n_nodes, scores=None, vid=None, as_pred=None, extra_pred=None):
     """LabeledFrame of user instances (scores None) or predicted instances (integer scores / 64)."""
     import sleap_io as sio
 
@@ -135,11 +138,18 @@ def build_frame(pose_list, frame_idx, n_nodes, scores=None, vid=None):
     insts = []
     for k, pose in enumerate(pose_list):
         pts = pose_np(pose)
-        if scores is None:
+        if scores is None and as_pred and as_pred[k]:
+            insts.append(shim.predicted_instance(pts, score=0.5, skeleton=sk))   # a ground-truth instance that is a PredictedInstance
+        elif scores is None:
             insts.append(sio.Instance.from_numpy(pts, skeleton=sk))
         else:
             insts.append(shim.predicted_instance(pts, score=scores[k] / 64.0, skeleton=sk))
-    return sio.LabeledFrame(video=(vid if vid is not None else video()), frame_idx=frame_idx, instances=insts)
+    n_counted = len(insts)
+    for pose in (extra_pred or []):
+        insts.append(shim.predicted_instance(pose_np(pose), score=0.4, skeleton=sk))   # must be ignored (user_labels_only=True)
+    lf = sio.LabeledFrame(video=(vid if vid is not None else video()), frame_idx=frame_idx, instances=insts)
+    _COUNTED[id(lf)] = n_counted
+    return lf
 
 
 def build_labels(frames, n_nodes, two_videos=False):
@@ -153,8 +163,8 @@ def build_labels(frames, n_nodes, two_videos=False):
     for f, fr in enumerate(frames):
         # two_videos: frames alternate between the two embedded videos and SHARE frame numbers (0, 0, 1, 1, ...)
         vid, fidx = (vids[f % 2], f // 2) if two_videos else (vids[0], f)
-        lf = build_frame(fr["gt"], fidx, n_nodes, vid=vid)
-        for k, inst in enumerate(lf.instances):
+        lf = build_frame(fr["gt"], fidx, n_nodes, vid=vid, as_pred=fr.get("gt_as_pred"), extra_pred=fr.get("gt_extra_pred"))
+        for k, inst in enumerate(lf.instances[:_COUNTED.get(id(lf), len(lf.instances))]):
             index[id(inst)] = ("g", f + 1, k + 1)
         gl.append(lf)
         if fr["haspr"]:
@@ -218,7 +228,7 @@ def observe_eval(case, opts=None):
         warnings.simplefilter("ignore")
         try:
             lg, lp, index, keep = build_labels(frames, n_nodes, two_videos=bool(opts.get("two_videos")))
-            ev = E.Evaluator(lg, lp, oks_stddev=stddev, oks_scale=scale, match_threshold=thr)
+            ev = E.Evaluator(lg, lp, oks_stddev=stddev, oks_scale=scale, match_threshold=thr, user_labels_only=bool(opts.get("user_labels_only", True)))
             import copy
             m1 = copy.deepcopy(ev.evaluate())
             m = ev.evaluate()   # evaluate() must be a function of the labels: the SECOND call on the same Evaluator is the one judged
